@@ -117,6 +117,8 @@ struct MTab {
     cov: String,
     /// the column the last DDL touched (added / renamed)
     touched: Option<String>,
+    /// Some(variant) if this table re-uses the name of a dropped table
+    recreated: Option<String>,
 }
 
 impl MTab {
@@ -300,7 +302,7 @@ impl Model {
                     variant.push_str("_with_text");
                 }
                 let cov = format!("{}{}", variant, if schema_of(q).is_some() { "_qualified" } else { "" });
-                self.tabs.insert(q.clone(), MTab { q: q.clone(), cols: cols.clone(), rows: vec![], idx: vec![], last_ddl: "create_table", variant, cov, touched: None });
+                self.tabs.insert(q.clone(), MTab { q: q.clone(), cols: cols.clone(), rows: vec![], idx: vec![], last_ddl: "create_table", recreated: if recreated { Some(variant.clone()) } else { None }, variant, cov, touched: None });
                 Expect::Ok
             }
             Op::DropTable { q, ie } => {
@@ -328,6 +330,11 @@ impl Model {
                         t.touched = None;
                         return Expect::Ok;
                     }
+                    // (a rejected duplicate must leave no trace: later failures on this table are attributed to it)
+                    t.last_ddl = "create_index";
+                    t.variant = "rejected_duplicate".into();
+                    t.cov.clear();
+                    t.touched = None;
                     return Expect::Err("index exists");
                 }
                 t.idx.push(MIdx { name: name.clone(), col: col.clone() });
@@ -654,11 +661,11 @@ fn diff_table(t: &MTab, got: &[Row], by_name: bool) -> Option<(String, J)> {
             "other_columns".into()
         };
     }
-    Some((format!("{}{}", pre, what), json!({"diff": d, "got": rows_json(got, 5), "want": rows_json(&t.rows, 5), "columns": t.cols.iter().map(|c| c.name.clone()).collect::<Vec<_>>()})))
+    Some((format!("{}{}", pre, what), elide_json(json!({"diff": d, "got": rows_json(got, 5), "want": rows_json(&t.rows, 5), "columns": t.cols.iter().map(|c| c.name.clone()).collect::<Vec<_>>()}))))
 }
 
 /// full observation of one table against the model
-fn check_table(db: &mut Db, t: &MTab) -> Option<(String, J)> {
+fn check_table(db: &mut Db, t: &MTab, probe_idx: bool, stale: &BTreeSet<String>) -> Option<(String, J)> {
     let sql = format!("SELECT * FROM {}", t.q);
     match db.query(&sql) {
         Err(e) => return Some((format!("select_star_{}", err_what(&e)), json!({"sql": sql, "error": e}))),
@@ -687,35 +694,66 @@ fn check_table(db: &mut Db, t: &MTab) -> Option<(String, J)> {
             }
         }
     }
-    // index lookups: a present and an absent key per indexed column
-    for ix in &t.idx {
+    if probe_idx {
+        if let Some((_, what, info)) = index_probe_failures(db, t, stale).into_iter().next() {
+            return Some((what, info));
+        }
+    }
+    None
+}
+
+/// equality lookups through every (non-stale) secondary index: a present key from either end of the table and an
+/// absent key. Returns (index name, what, info) per failing index.
+fn index_probe_failures(db: &mut Db, t: &MTab, stale: &BTreeSet<String>) -> Vec<(String, String, J)> {
+    let mut out = vec![];
+    'next_index: for ix in &t.idx {
+        if stale.contains(&ix.name) {
+            continue;
+        }
         let Some(p) = t.col_pos(&ix.col) else { continue };
         let ty = t.cols[p].ty;
         if ty == Ty::Dbl || ty == Ty::Bool {
             continue;
         }
         let mut keys: Vec<V> = vec![];
-        if let Some(v) = t.rows.iter().map(|r| &r[p]).find(|v| !v.is_null()) {
+        // (predicates on TOAST-sized text are a query-layer matter, not a schema-change one: short keys only)
+        let short_key = |v: &&V| !v.is_null() && !matches!(v, V::Text(s) if s.len() >= 900);
+        if let Some(v) = t.rows.iter().map(|r| &r[p]).find(short_key) {
             keys.push(v.clone());
         }
-        if let Some(v) = t.rows.iter().rev().map(|r| &r[p]).find(|v| !v.is_null()) {
+        if let Some(v) = t.rows.iter().rev().map(|r| &r[p]).find(short_key) {
             keys.push(v.clone());
         }
         keys.push(if ty == Ty::Text { V::Text("absent-key".into()) } else { V::Int(-987654) });
         for k in keys {
+            let long = matches!(&k, V::Text(s) if s.len() >= 900);
             let sql = format!("SELECT * FROM {} WHERE {} = {}", t.q, ix.col, k.sql());
             let want: Vec<Row> = t.rows.iter().filter(|r| eq_sql(&r[p], &k)).cloned().collect();
             match db.query(&sql) {
-                Err(e) => return Some((format!("index_lookup_{}", err_what(&e)), json!({"sql": short(&sql), "error": e}))),
+                Err(e) => {
+                    out.push((ix.name.clone(), format!("index_lookup_{}", err_what(&e)), json!({"sql": short(&sql), "index": ix.name, "error": e})));
+                    continue 'next_index;
+                }
                 Ok(rows) => {
                     if let Some(d) = bag_diff(&rows, &want) {
-                        return Some(("index_lookup".into(), json!({"sql": short(&sql), "index": ix.name, "diff": d})));
+                        out.push((ix.name.clone(), (if long { "index_lookup_long_text_key" } else { "index_lookup" }).to_string(), elide_json(json!({"sql": short(&sql), "index": ix.name, "diff": d}))));
+                        continue 'next_index;
                     }
                 }
             }
         }
     }
-    None
+    out
+}
+
+/// shorten long strings inside a JSON value (TOAST-sized literals)
+fn elide_json(j: J) -> J {
+    match j {
+        J::String(s) if s.len() > 240 => J::String(format!("{}...<{} bytes>", s.chars().take(120).collect::<String>(), s.len())),
+        J::Array(a) => J::Array(a.into_iter().map(elide_json).collect()),
+        J::Object(o) => J::Object(o.into_iter().map(|(k, v)| (k, elide_json(v))).collect()),
+        other => other,
+    }
 }
 
 fn short(s: &str) -> String {
@@ -734,19 +772,18 @@ struct RunOut {
     ddl_on_data: BTreeMap<String, u64>,
     executed: usize,
     reopens: usize,
+    stale_indexes: usize,
     log: Vec<String>,
 }
 
-/// `burn`: after every reopen consume as many row ids as any earlier session used, so that the known
-/// "row-id counter restarts at 1 on open" defect (reported by C04) cannot mask DDL findings. Histories run
-/// without `burn` show that defect under one fixed signature.
-fn run_history(ops: &[Op], dir: &Path, burn: bool) -> RunOut {
-    let mut out = RunOut { fails: vec![], ddl_on_data: BTreeMap::new(), executed: 0, reopens: 0, log: vec![] };
-    let mut session_ids: usize = 0;
-    let mut max_key_bound: usize = 0;
+fn run_history(ops: &[Op], dir: &Path) -> RunOut {
+    let mut out = RunOut { fails: vec![], ddl_on_data: BTreeMap::new(), executed: 0, reopens: 0, stale_indexes: 0, log: vec![] };
     let _ = std::fs::remove_dir_all(dir);
     let mut m = Model::new();
     let mut tainted: BTreeSet<String> = BTreeSet::new();
+    // secondary indexes that already answered wrongly BEFORE a DDL / reopen (index maintenance by DML is C10's
+    // business): they are no longer judged, so that an index_lookup failure is attributable to the DDL / reopen
+    let mut stale: BTreeSet<String> = BTreeSet::new();
     let mut db = match Db::create(dir) {
         Ok(d) => Some(d),
         Err(e) => {
@@ -780,6 +817,20 @@ fn run_history(ops: &[Op], dir: &Path, burn: bool) -> RunOut {
         // the table a DROP INDEX acts on (for the post-check)
         let idx_owner = if let Op::DropIndex { name, .. } = op { m.tabs.values().find(|t| t.idx.iter().any(|x| &x.name == name)).map(|t| t.q.clone()) } else { None };
         let before = tkey.as_ref().and_then(|q| m.tabs.get(q)).map(|t| (t.last_ddl, t.variant.clone()));
+        if op.is_ddl() || matches!(op, Op::Reopen { .. }) {
+            if let Some(d) = db.as_mut() {
+                let targets: Vec<&MTab> = match op {
+                    Op::Reopen { .. } => m.tabs.values().filter(|t| !tainted.contains(&t.q)).collect(),
+                    _ => tkey.clone().or(idx_owner.clone()).and_then(|q| m.tabs.get(&q)).into_iter().collect(),
+                };
+                for t in targets {
+                    for (name, _, _) in index_probe_failures(d, t, &stale) {
+                        stale.insert(name);
+                        out.stale_indexes += 1;
+                    }
+                }
+            }
+        }
         let exp = m.apply(op);
         if matches!(exp, Expect::Skip) {
             continue;
@@ -805,29 +856,20 @@ fn run_history(ops: &[Op], dir: &Path, burn: bool) -> RunOut {
                 if tainted.contains(&t.q) {
                     continue;
                 }
-                if let Some((what, info)) = check_table(d, t) {
-                    out.fails.push(Fail { kind: t.last_ddl.to_string(), assertion: "catalog_after_reopen", detail: format!("{}:{}", t.variant, what), info, op_index: i, log_pos: 0 });
+                if let Some((what, info)) = check_table(d, t, true, &stale) {
+                    // a table that re-uses a dropped name is attributed to its re-creation whatever DDL followed
+                    let (k, v) = match &t.recreated {
+                        Some(v) => ("create_table".to_string(), v.clone()),
+                        None => (t.last_ddl.to_string(), t.variant.clone()),
+                    };
+                    out.fails.push(Fail { kind: k, assertion: "catalog_after_reopen", detail: format!("{}:{}", v, what), info, op_index: i, log_pos: 0 });
                     tainted.insert(t.q.clone());
                 }
-            }
-            max_key_bound = max_key_bound.max(session_ids);
-            session_ids = 0;
-            if burn && max_key_bound > 0 {
-                let bt = format!("zz_burn{}", out.reopens);
-                let k = max_key_bound + 2;
-                let _ = d.exec(&format!("CREATE TABLE {} (id BIGINT PRIMARY KEY)", bt));
-                let vals: Vec<String> = (1..=k).map(|n| format!("({})", n)).collect();
-                let _ = d.exec(&format!("INSERT INTO {} (id) VALUES {}", bt, vals.join(", ")));
-                session_ids = k;
-                out.log.push(format!("-- (harness) CREATE TABLE {} (id BIGINT PRIMARY KEY); INSERT {} rows into it to advance the row-id counter", bt, k));
             }
             continue;
         }
         let d = db.as_mut().unwrap();
         let sql = op.sql();
-        if let Op::Insert { rows, .. } = op {
-            session_ids += rows.len();
-        }
         let got = d.exec(&sql);
         // attribute: the op's own kind for DDL, else the last DDL of the table
         let (kind, variant): (String, String) = if op.is_ddl() {
@@ -878,7 +920,7 @@ fn run_history(ops: &[Op], dir: &Path, burn: bool) -> RunOut {
             let target = tkey.clone().or(idx_owner);
             if let Some(q) = target {
                 if let Some(t) = m.tabs.get(&q) {
-                    if let Some((what, info)) = check_table(d, t) {
+                    if let Some((what, info)) = check_table(d, t, op.is_ddl(), &stale) {
                         let a = if op.is_ddl() { "existing_rows" } else { "future_rows" };
                         let what = if op.is_ddl() { what } else { format!("after_{}_{}", opk, what) };
                         out.fails.push(Fail { kind: kind.clone(), assertion: a, detail: format!("{}:{}", variant, what), info: json!({"after": short(&sql), "check": info}), op_index: i, log_pos: 0 });
@@ -897,10 +939,6 @@ fn run_history(ops: &[Op], dir: &Path, burn: bool) -> RunOut {
                 // INSERT naming a non-existent column: the same defect whatever DDL removed the name
                 kind = "any_table".into();
                 variant = "unknown_column".into();
-            } else if !burn && out.reopens > 0 && matches!(op, Op::Insert { .. }) && what.ends_with("error:key_already_exists") {
-                // row-id counter restarts at 1 on open (C04 finding): one signature, whatever the table's DDL history
-                kind = "reopen".into();
-                variant = "insert_after_reopen".into();
             }
             out.fails.push(Fail { kind, assertion, detail: format!("{}:{}", variant, what), info, op_index: i, log_pos: 0 });
             match op {
@@ -944,14 +982,12 @@ struct Feats {
     reopen: bool,
     long_text: bool,
     error_cases: bool,
-    /// advance the row-id counter after every reopen (see run_history)
-    burn: bool,
 }
 
 impl Feats {
     fn tags(&self) -> Vec<&'static str> {
         let mut v = vec![];
-        for (b, n) in [(self.schema, "schema"), (self.drop_create, "drop_create"), (self.index, "index"), (self.truncate, "truncate"), (self.add_col, "add_col"), (self.drop_col, "drop_col"), (self.rename_col, "rename_col"), (self.reopen, "reopen"), (self.long_text, "long_text"), (self.error_cases, "error_cases"), (self.burn, "burn_row_ids")] {
+        for (b, n) in [(self.schema, "schema"), (self.drop_create, "drop_create"), (self.index, "index"), (self.truncate, "truncate"), (self.add_col, "add_col"), (self.drop_col, "drop_col"), (self.rename_col, "rename_col"), (self.reopen, "reopen"), (self.long_text, "long_text"), (self.error_cases, "error_cases")] {
             if b {
                 v.push(n);
             }
@@ -1167,7 +1203,7 @@ impl<'a> Gen<'a> {
             self.push(Op::Select { q: q.to_string(), cols: vec![n.clone()], filter: None });
             if let Some(p) = t.col_pos(n) {
                 if matches!(t.cols[p].ty, Ty::Big | Ty::Int | Ty::Text) {
-                    let v = t.rows.iter().map(|r| r[p].clone()).find(|v| !v.is_null()).or_else(|| t.cols[p].default.clone());
+                    let v = t.rows.iter().map(|r| r[p].clone()).find(|v| !v.is_null() && !matches!(v, V::Text(s) if s.len() >= 900)).or_else(|| t.cols[p].default.clone());
                     if let Some(v) = v {
                         self.push(Op::Select { q: q.to_string(), cols: vec![], filter: Some((n.clone(), v)) });
                     }
@@ -1434,7 +1470,6 @@ fn gen_history(rng: &mut Rng, target: usize) -> (Vec<Op>, Feats) {
     f.reopen = rng.chance(2, 3);
     f.long_text = rng.chance(1, 4);
     f.error_cases = rng.chance(1, 4);
-    f.burn = rng.chance(3, 4);
     let mut g = Gen { rng, m: Model::new(), ops: vec![], f: f.clone(), uniq: 0, ncol: 0, nidx: 0, dropped_cols: vec![] };
     let ntab = g.rng.usize(1, 2);
     for i in 0..ntab {
@@ -1477,23 +1512,23 @@ fn gen_history(rng: &mut Rng, target: usize) -> (Vec<Op>, Feats) {
 // ---------------------------------------------------------------- shrinking
 
 /// ddmin over the operation list: smallest sub-history (found within the budget) that still yields `sig`
-fn shrink(ops: &[Op], sig: &str, dir: &Path, budget: usize, burn: bool) -> Vec<Op> {
+fn shrink(ops: &[Op], sig: &str, dir: &Path, budget: usize, deadline: std::time::Instant) -> Vec<Op> {
     let mut cur: Vec<Op> = ops.to_vec();
     let mut runs = 0usize;
-    let mut fails_with = |cand: &[Op], runs: &mut usize| -> bool {
+    let fails_with = |cand: &[Op], runs: &mut usize| -> bool {
         *runs += 1;
-        run_history(cand, dir, burn).fails.iter().any(|f| f.sig() == sig)
+        run_history(cand, dir).fails.iter().any(|f| f.sig() == sig)
     };
     // cut everything after the failing operation first
-    if let Some(f) = run_history(&cur, dir, burn).fails.iter().find(|f| f.sig() == sig) {
+    if let Some(f) = run_history(&cur, dir).fails.iter().find(|f| f.sig() == sig) {
         cur.truncate(f.op_index + 1);
     }
     let mut n = 2usize;
-    while cur.len() >= 2 && runs < budget {
+    while cur.len() >= 2 && runs < budget && std::time::Instant::now() < deadline {
         let chunk = (cur.len() + n - 1) / n;
         let mut reduced = false;
         let mut start = 0;
-        while start < cur.len() && runs < budget {
+        while start < cur.len() && runs < budget && std::time::Instant::now() < deadline {
             let end = (start + chunk).min(cur.len());
             let cand: Vec<Op> = cur[..start].iter().chain(cur[end..].iter()).cloned().collect();
             if !cand.is_empty() && fails_with(&cand, &mut runs) {
@@ -1513,7 +1548,7 @@ fn shrink(ops: &[Op], sig: &str, dir: &Path, budget: usize, burn: bool) -> Vec<O
     }
     // shrink multi-row inserts to a single row
     let mut i = 0;
-    while i < cur.len() && runs < budget {
+    while i < cur.len() && runs < budget && std::time::Instant::now() < deadline {
         if let Op::Insert { q, cols, rows } = &cur[i] {
             if rows.len() > 1 {
                 let mut cand = cur.clone();
@@ -1583,9 +1618,11 @@ pub fn run(a: &Args) -> i32 {
     );
     let mut master = Rng::derive(a.seed, 21);
     let quick = ctx.quick();
-    let budget_s = if quick { 40.0 } else { 480.0 };
+    let budget_s = if quick { 36.0 } else { 470.0 };
+    // shrinking runs on this thread: only early in the run, so that the wall budget holds
+    let shrink_until_s = if quick { 22.0 } else { 400.0 };
     let max_hist = if cfg!(miri) { 0 } else if quick { 600 } else { 12000 };
-    let max_shrinks = if quick { 5 } else { 40 };
+    let max_shrinks = if quick { 3 } else { 40 };
     let scratch = Scratch::new("c21");
     // every history gets its own generator seeded from the C21 stream; workers only overlap the fsync waits
     let seeds: std::sync::Arc<Vec<u64>> = std::sync::Arc::new((0..max_hist).map(|_| master.next()).collect());
@@ -1608,7 +1645,7 @@ pub fn run(a: &Args) -> i32 {
             let mut rng = Rng::new(seeds[idx]);
             let target = rng.usize(12, 45);
             let (ops, feats) = gen_history(&mut rng, target);
-            let out = run_history(&ops, &dir, feats.burn);
+            let out = run_history(&ops, &dir);
             if tx.send((ops, feats, out)).is_err() {
                 break;
             }
@@ -1626,6 +1663,7 @@ pub fn run(a: &Args) -> i32 {
         ctx.evals(out.executed as u64);
         ctx.count("histories", 1);
         ctx.count("reopens", out.reopens as u64);
+        ctx.count("indexes_already_wrong_before_ddl_or_reopen_not_judged", out.stale_indexes as u64);
         for t in feats.tags() {
             *feat_totals.entry(t).or_insert(0) += 1;
         }
@@ -1650,11 +1688,11 @@ pub fn run(a: &Args) -> i32 {
             let known = ctx.is_known(&sig).is_some();
             let mut minimal: Option<Vec<String>> = None;
             let mut minimal_info: Option<J> = None;
-            if !known && !shrunk.contains(&sig) && shrunk.len() < max_shrinks && ctx.elapsed() < budget_s {
+            if !known && !shrunk.contains(&sig) && shrunk.len() < max_shrinks && ctx.elapsed() < shrink_until_s {
                 shrunk.insert(sig.clone());
                 let sdir = scratch.dir("shrink");
-                let small = shrink(&ops, &sig, &sdir, if quick { 50 } else { 150 }, feats.burn);
-                let again = run_history(&small, &sdir, feats.burn);
+                let small = shrink(&ops, &sig, &sdir, if quick { 30 } else { 150 }, ctx.start + std::time::Duration::from_secs_f64(if quick { 30.0 } else { 440.0 }));
+                let again = run_history(&small, &sdir);
                 minimal_info = again.fails.iter().find(|x| x.sig() == sig).map(|x| x.info.clone());
                 minimal = Some(small.iter().map(|o| o.short_sql()).collect());
             }
@@ -1684,6 +1722,6 @@ pub fn run(a: &Args) -> i32 {
     if !first_of_sig.is_empty() {
         ctx.extra.insert("unexplained_first_of_signature".into(), json!(first_of_sig));
     }
-    ctx.assumptions.push("NOT NULL without DEFAULT is only added to empty tables; DROP SCHEMA only on empty schemas; primary-key columns are never dropped; RENAME to an existing name, explicit NULL into a DEFAULT column, UNIQUE indexes and one index name on two tables are not generated (undocumented or owned by other properties); text compares bytewise; in 3/4 of the histories the harness advances the row-id counter after each reopen (C04 finding: the counter restarts at 1 on open), the rest show that defect under C21/reopen/future_rows/insert_after_reopen:*".into());
+    ctx.assumptions.push("NOT NULL without DEFAULT is only added to empty tables; DROP SCHEMA only on empty schemas; primary-key columns are never dropped; RENAME to an existing name, explicit NULL into a DEFAULT column, UNIQUE indexes and one index name on two tables are not generated (undocumented or owned by other properties); text compares bytewise".into());
     ctx.finish()
 }
